@@ -54,6 +54,8 @@ pub enum Step {
     /// Grants `turns` passes at a schedule point of the server ("s.turn", "t.turn",
     /// "s.del.remove"); a negative number opens the point.
     Gate { name: String, turns: i64 },
+    /// Calls a public name parser on `s` and records what it returned and what it echoes.
+    Parse { #[serde(rename = "fn")] func: String, s: String },
     /// Records a `quiet` event if the server stays completely idle for a virtual millisecond.
     Quiet {},
 }
@@ -191,6 +193,7 @@ pub async fn run_scenario(scenario: &Scenario, out: Option<Out>) -> Vec<Value> {
                 }
             }
             Step::Quiet {} => quiet(&world).await,
+            Step::Parse { func, s } => world.ev("parse", crate::libcall::parse_event(&func, &s)),
             Step::Gate { name, turns } => {
                 world.ev("mark", json!({"name": format!("gate {} {}", name, turns)}));
                 gate.set(&name, if turns < 0 { None } else { Some(turns as usize) });
